@@ -52,6 +52,12 @@ func behave(t *f1t.T, b int) {
 		var s []int
 		i := len(s) + 3
 		_ = s[i]
+	case bPanicSlice:
+		panic([]string{"harness-planned-panic"})
+	case bPanicMap:
+		panic(map[string]int{"harness-planned-panic": 1})
+	case bPanicFunc:
+		panic(func() string { return "harness-planned-panic" })
 	case bHelperErrorf:
 		done := make(chan struct{})
 		go func() {
